@@ -55,9 +55,24 @@ def coq_gate():
     """No Admitted / Axiom / Parameter / switched-off checks anywhere in the development."""
     bad = []
     for f in sorted(glob.glob(os.path.join(COQ, "*.v"))):
+        depth, in_str = 0, False
         for n, line in enumerate(open(f), 1):
-            code = re.sub(r"\(\*.*?\*\)", "", line)
-            if FORBIDDEN.search(code):
+            code, i = [], 0
+            while i < len(line):          # strip (possibly nested, multi-line) comments; string literals are kept as code
+                two = line[i:i + 2]
+                if not in_str and two == "(*":
+                    depth += 1
+                    i += 2
+                elif not in_str and depth and two == "*)":
+                    depth -= 1
+                    i += 2
+                else:
+                    if depth == 0:
+                        if line[i] == '"':
+                            in_str = not in_str
+                        code.append(line[i])
+                    i += 1
+            if FORBIDDEN.search("".join(code)):
                 bad.append(f"{os.path.basename(f)}:{n}: {line.strip()}")
     return bad
 
